@@ -13,6 +13,9 @@ def tables(tier):
         "promo_13_5": b(Type="promotion", LevelsC={1, 3}, MaxT=5, Vals={0, 1, 2, 3}, MRA=True),
         "pasha": b(Type="pasha", LevelsC={1, 2, 4}, MaxT=8, Vals={0, 1}, MRA=True),
         "pasha_max": b(Type="pasha", LevelsC={1, 2, 3}, MaxT=4, Vals={0, 1, 2}, MRA=True, IsMin=False),
+        # PASHA with two brackets sharing one rung system (known finding F20: the ranking comparison raises IndexError
+        # for a trial that skipped the lowest rung)
+        "pasha_2br": b(Type="pasha", LevelsC={1, 2, 4}, MaxT=8, Vals={0, 1}, MRA=True, NBr=2),
         "cost": b(Type="cost_promotion", Costs={1, 2}, MRA=True), "cost_nockpt": b(Type="cost_promotion", Costs={1, 3}, Ckpt=False),
         "rush_promo0": b(Type="rush_promotion", NThr=0, MRA=True),
     }
@@ -25,7 +28,8 @@ def tables(tier):
 def run(rep, tier, seed):
     rep.assume(
         "metric / cost values are small integers stored as floats; exact ties may go either way",
-        "PASHA's decision to grow the cap is logged (cap read after every call), not predicted",
+        "PASHA's decision to grow the cap is logged (cap read after every call), not predicted; when it grows, it grows by one "
+        "rung level (cap_skips_level)",
         "cost-aware promotion is judged in general position only when metric values tie (best-first order among equal "
         "metrics is the SortedList's)",
         "RUSH promotion is covered with num_threshold_candidates = 0 only (threshold side effects of the scan are not modelled)",
